@@ -87,6 +87,13 @@ def types_unit(tier):
                             ("val_ret", "Mv", "mr::val_ret(lv<A&>())"), ("ptr_ret", "A*", "mr::ptr_ret(lv<A*>())"), ("void_ret", "void", "mr::void_ret(lv<A&>(), lv<Mv&&>())")):
         u.add("macro|return|%s" % name, "the function generated by YOMM2_DECLARE for a method returning %s returns %s (the definition's result passes through unchanged)" % (ret, ret),
               "static_assert(std::is_same_v<decltype(%s), %s>);" % (call, ret))
+    # ... and take exactly the method's parameters (virtual_<> removed): a by-value parameter stays a by-value parameter, so an
+    # rvalue argument is moved into it and forwarded, never bound to a const reference and copied further down
+    u.raw("namespace mp { struct Tk { Tk(); Tk(const Tk&); Tk(Tk&&); }; YOMM2_DECLARE(int, by_val, (virtual_<A&>, Tk, Mv)); YOMM2_DECLARE(int, by_ref, (Tk&, virtual_<const A&>, const Tk&, Tk&&)); "
+          "YOMM2_DECLARE(int, by_sp, (virtual_<std::shared_ptr<A>>, std::shared_ptr<int>, virtual_ptr<A>)); }")
+    for name, sig in (("by_val", "int (*)(A&, mp::Tk, Mv)"), ("by_ref", "int (*)(mp::Tk&, const A&, const mp::Tk&, mp::Tk&&)"), ("by_sp", "int (*)(std::shared_ptr<A>, std::shared_ptr<int>, virtual_ptr<A>)")):
+        u.add("macro|params|%s" % name, "the function generated by YOMM2_DECLARE has the method's own parameter types, virtual_<> removed (%s)" % sig,
+              "static_assert(std::is_same_v<decltype(static_cast<%s>(&mp::%s)), %s>);" % (sig, name, sig))
     # programs that must compile: one line each
     progs = [
         ("moveonly-last", "int(virtual_<A&>, std::unique_ptr<int>)", "B&, std::unique_ptr<int>", "A& a, std::unique_ptr<int> p", "a, std::move(p)"),
